@@ -6,7 +6,7 @@ import os
 import struct
 
 from vf.core import SECTOR, Model, as_handle, rng_for
-from vf.diskcheck import compare_reads, crossing_count, gen_requests, mismatch_detail
+from vf.diskcheck import compare_reads, continuation_reads, crossing_count, gen_requests, mismatch_detail
 from vf.monitors import call
 from vf.writers import vmdk as w
 
@@ -50,6 +50,8 @@ def plan(tier: str, seed: int) -> list[dict]:
         cases.append({"k": kind, "i": i, "placement": rng.choice(["seq", "rev", "shuffle", "runs", "runs", "revruns"]), "weight": 2})
     for i in range(3 if tier == "quick" else 20):
         cases.append({"k": "bigcap", "i": i, "weight": 4})
+    for i in range(16 if tier == "quick" else 400):
+        cases.append({"k": "multi", "i": i, "placement": "shuffle", "weight": 2})
     cases.append({"k": "fixture", "name": "sesparse.vmdk.gz", "weight": 10})
     return cases
 
@@ -145,6 +147,23 @@ def run(case: dict, ctx) -> dict:
         res["sample"] = {"fixture": case["name"], "size": model.size, "n_requests": len(reqs)}
         return res
 
+    if k == "multi":
+        # the same extent kinds as later members of an explicit handle list (each extent keeps its own sector range)
+        from vf import streams
+
+        o = call(streams.open_kind, "vmdk-multi", rng, ctx)
+        if not o.ok:
+            res["viol"].append({"what": f"open failed on conformant extents: {o.brief()}", "mech": MECH, "detail": {"tb": o.tb}})
+            return res
+        op = o.value
+        reqs, _ = gen_requests(rng, op.model.size, [8192, SECTOR * 8], n_random=40)
+        reqs.append((0, op.model.size))
+        compare_reads(op.stream, op.model, reqs, res, MECH)
+        res["cnt"]["extent_list_cases"] = 1
+        res["nontrivial"] = True
+        res["sig"] = ("multi", case["i"], op.model.size)
+        res["sample"] = {"extent_list": op.info, "size": op.model.size}
+        return res
     placement = case.get("placement", "shuffle")
     tag = rng.getrandbits(48)
     desc = None
@@ -250,6 +269,7 @@ def run(case: dict, ctx) -> dict:
             a = t * cov + rng.randrange(0, cov)
             reqs.append((a, min(rng.randrange(cov // 2, 2 * cov + 2), 3 << 20)))
         res["cnt"]["table_crossing_requests"] = 12
+    continuation_reads(v, model, reqs, rng, res, MECH)
     compare_reads(v, model, reqs, res, MECH)
     # sector interface
     total = meta["capacity"]
